@@ -329,7 +329,7 @@ fn sim_poll_fd(fd: i32, interest: u32) -> u32 {
 
 impl Kernel for Sim {
     fn pair(&mut self, _via_listener: bool, pre: &[Act]) {
-        world::reset(Config { cap_c2s: 200_000, cap_s2c: 200_000, out_threshold: OutThreshold::Quarter, log: false, first_fd: 3 });
+        world::reset(Config { cap_c2s: 200_000, cap_s2c: 200_000, out_threshold: OutThreshold::Quarter, log: false, first_fd: 3, fd_stride: 1 });
         let (s, conn) = world::with(|w| {
             let l = w.bind("/sim/conf.sock").unwrap();
             let conn = w.client_connect("/sim/conf.sock").unwrap();
